@@ -123,4 +123,52 @@ theorem phiLoop_cast : ∀ (Lf : List Nat) (r : Nat), (∀ f ∈ Lf, 0 < f) →
     rw [this, ih _ htpos]
 
 
+/-- the stack of repeated squarings `p^(2^(j-1)), …, p^2, p` (head = back of the C++ list) -/
+def powList (p : Int) : Nat → List Int
+  | 0 => []
+  | j + 1 => p ^ (2 ^ j) :: powList p j
+
+theorem powList_length (p : Int) : ∀ j, (powList p j).length = j := by
+  intro j; induction j with
+  | zero => rfl
+  | succ j ih => simp [powList, ih]
+
+theorem logpBuild_spec (a p : Int) : ∀ (fuel i : Nat), p ^ (2 ^ i) ≤ a → a < p ^ (2 ^ (i + fuel)) →
+    ∃ m, logpBuild fuel a (p ^ (2 ^ i)) (powList p i) = powList p (m + 1) ∧ p ^ (2 ^ m) ≤ a ∧ a < p ^ (2 ^ (m + 1)) := by
+  intro fuel
+  induction fuel with
+  | zero => intro i h1 h2; simp at h2; omega
+  | succ n ih =>
+    intro i h1 h2
+    rw [logpBuild]
+    have hsq : p ^ (2 ^ i) * p ^ (2 ^ i) = p ^ (2 ^ (i + 1)) := by
+      rw [← pow_add, ← two_mul, ← pow_succ']
+    rw [hsq]
+    have hl : p ^ (2 ^ i) :: powList p i = powList p (i + 1) := rfl
+    rw [hl]
+    by_cases hc : p ^ (2 ^ (i + 1)) ≤ a
+    · rw [if_pos hc]
+      exact ih (i + 1) hc (by rw [show i + 1 + n = i + (n + 1) by omega]; exact h2)
+    · rw [if_neg hc]
+      exact ⟨i, rfl, h1, by omega⟩
+
+theorem logpDown_spec (a p : Int) : ∀ (j res : Nat), p ^ res ≤ a → a < p ^ (res + 2 ^ j) →
+    ∃ r : Nat, logpDown a (powList p j) (p ^ res) (res : Int) = (r : Int) ∧ p ^ r ≤ a ∧ a < p ^ (r + 1) := by
+  intro j
+  induction j with
+  | zero => intro res h1 h2; exact ⟨res, rfl, h1, by simpa using h2⟩
+  | succ j ih =>
+    intro res h1 h2
+    simp only [powList, logpDown, powList_length]
+    have hsq : p ^ res * p ^ (2 ^ j) = p ^ (res + 2 ^ j) := by rw [← pow_add]
+    rw [hsq]
+    by_cases hc : p ^ (res + 2 ^ j) ≤ a
+    · rw [if_pos hc]
+      have hcast : (res : Int) + 2 ^ j = ((res + 2 ^ j : Nat) : Int) := by push_cast; rfl
+      rw [hcast]
+      exact ih (res + 2 ^ j) hc (by rw [show res + 2 ^ j + 2 ^ j = res + 2 ^ (j + 1) by rw [pow_succ]; omega]; exact h2)
+    · rw [if_neg hc]
+      exact ih res h1 (by omega)
+
+
 end Givaro.Lemmas.NumTheo
